@@ -73,7 +73,7 @@ def main():
     def body():
         tr = ['poseidon.Poseidon1', 'poseidon.Poseidon2', 'poseidon.poseidon', 'poseidon.fullRound', 'poseidon.halfRound']
         jobs = [{'id': 'p2', 'kind': 'poseidon2', 'trace': tr}, {'id': 'p1', 'kind': 'poseidon1', 'trace': tr},
-                {'id': 'pm', 'kind': 'poseidon_multi', 'trace': tr},
+                {'id': 'pm', 'kind': 'poseidon_multi', 'trace': tr}, {'id': 'pc', 'kind': 'poseidon_const', 'trace': tr},
                 {'id': 'ins22', 'kind': 'insproof', 'a': 2, 'b': 2, 'trace': ['poseidon.Poseidon2']},
                 {'id': 'del31', 'kind': 'delproof', 'a': 3, 'b': 1, 'trace': ['poseidon.Poseidon2']}]
         t = time.time()
@@ -222,6 +222,38 @@ def main():
                         break
             if not found:
                 run.inconclusive.append('multi-call difference did not reproduce concretely')
+        # ---- operands that are compile-time constants (alone, zero, mixed with a variable)
+        dc = json.load(open(paths['pc']))
+        if dc.get('Error'):
+            run.obligation('constant operands: the gadgets compile', 'sat', 'unsat', 0.0)
+            run.violation('defining Poseidon1/Poseidon2 on compile-time constant operands fails in gnark\'s compiler: %s' % dc['Error'][:200], {'job': 'poseidon_const', 'error': dc['Error'][:2000]}, key='poseidon-const')
+        else:
+            Lc = Lifter(dc)
+            X = Lc.val[1]
+            Oc = [Lc.val[2 + i] for i in range(6)]
+            resc = outputs_of(Lc, 6)
+            K = lambda c: ({ONE: c} if c else {})
+            refs = [ref_hash(Lc, [K(3), K(5)]), ref_hash(Lc, [K(0), K(0)]), ref_hash(Lc, [K(7)]), ref_hash(Lc, [K(0)]), ref_hash(Lc, [K(11), X]), ref_hash(Lc, [X, K(0)])]
+            names = ['Poseidon2(3,5)', 'Poseidon2(0,0)', 'Poseidon1(7)', 'Poseidon1(0)', 'Poseidon2(11,X)', 'Poseidon2(X,0)']
+            badc = []
+            if len(resc) != 6 or any(r_ is None for r_ in resc):
+                raise Inconclusive('constant harness: expected 6 equality assertions')
+            for r_, O, ref, nm in zip(resc, Oc, refs, names):
+                real = Lc.add(r_, O) if r_.get(list(O)[0]) == Lc.P - 1 else Lc.add(Lc.scale(r_, Lc.P - 1), O)
+                r, secs, structural = decide_eq(Lc, real, ref)
+                if not run.obligation('constant operands: %s == reference' % nm, r, 'unsat', secs, structurally_identical=structural):
+                    badc.append(nm)
+            if badc:
+                P = poseidon_ref.P
+                x = rng.randrange(P)
+                exp = [poseidon_ref.hash([3, 5]), poseidon_ref.hash([0, 0]), poseidon_ref.hash([7]), poseidon_ref.hash([0]), poseidon_ref.hash([11, x]), poseidon_ref.hash([x, 0])]
+                w, failed = eval_r1cs(dc, [x] + exp)
+                g = dumper_solve({'id': 'x', 'kind': 'poseidon_const'}, [x] + exp)
+                if failed and not g['solved']:
+                    run.violation('with compile-time constant operands (%s) the compiled gadget does not produce the reference Poseidon value' % ', '.join(badc),
+                                  {'job': 'poseidon_const', 'x': str(x), 'expected': [str(e_) for e_ in exp], 'failed_constraints': failed[:4], 'gnark_solver_error': g['error'][:300]}, key='poseidon-const')
+                else:
+                    run.inconclusive.append('constant-operand difference did not reproduce concretely')
         # ---- purity of the gadget definitions (GOSYM): no write to state that exists before the definition (tables, package-level config)
         try:
             import driver, stubs
@@ -254,6 +286,8 @@ def main():
                     run.inconclusive.append('shared write at %s during gadget definition, but the native concurrent run gives reference values' % (writes[0][3],))
         except common_BuildError as x:
             run.inconclusive.append('purity harness does not build: %s' % str(x)[-300:])
+        except Unsupported as x:
+            run.inconclusive.append('purity harness: unsupported by the encoder: %s' % x)
         run.samples = run.obls[:3]
         run.assumptions += ['"textbook Poseidon with Grain-generated parameters == iden3/circomlib optimised Poseidon for all inputs" is a third-party polynomial identity: cross-validated on %d points each run, not proven' % len(pts),
                             'equality is decided in linear arithmetic mod p + congruence on structural product atoms (commutative, power products flattened)']
@@ -263,7 +297,7 @@ def main():
                         'calls in one circuit (aliasing), and for every Poseidon call inside real InsertionProof/DeletionProof circuits.',
             trusted_base=['z3 5.1.0', 'gnark v0.8.0 frontend', 'Grain-LFSR parameter generator (cross-checked vs iden3)'],
             functions=['poseidon.Poseidon1/Poseidon2/poseidon/fullRound/halfRound/sbox/mds .DefineGadget'],
-            bounds='all field inputs; t=2 and t=3; all rounds; multi-call harness with 7 results; every call in insproof(2,2) and delproof(3,1)')
+            bounds='all field inputs; t=2 and t=3; all rounds; constant and mixed operands (6 calls); multi-call harness with 7 results; every call in insproof(2,2) and delproof(3,1)')
     main_guard(run, body)
 
 
